@@ -24,6 +24,14 @@ Import ListNotations.
 (* find_all(data_id=d):  res = self._nodes_by_data_id.get(d);  return res or [] *)
 Definition lk_find_all_did (t : tstate) (d : did) : list nat := idx_get d (idx t).
 
+(* find_all(data_id=d, max_results=k)  (as repaired, D26):
+   return res[:max_results] if max_results else list(res)   -- k = 0 is "no limit" *)
+Definition lk_find_all_did_max (t : tstate) (d : did) (k : nat) : list nat :=
+  match k with
+  | 0 => idx_get d (idx t)
+  | _ => firstn k (idx_get d (idx t))
+  end.
+
 (* find_all(data):  data_id = self.calc_data_id(data), then as above *)
 Definition lk_find_all_data (t : tstate) (dat : dat) : option (list nat) :=
   option_map (lk_find_all_did t) (calc_id (calc t) dat).
@@ -136,7 +144,9 @@ Definition sx_probe (t : tstate) (p : probe) : sx :=
           sx_onat (lk_find_first_did t e);                    (* find_first(data_id=e) *)
           sx_cb sx_ids (option_map (lk_find_all_did t) fb);   (* find_all(e): e as a data object *)
           sx_cb sx_bool (lk_contains_did t e fb);             (* e in tree *)
-          sx_res (lk_getitem t (LDid e fb)) ]                 (* tree[e] *)
+          sx_res (lk_getitem t (LDid e fb));                  (* tree[e] *)
+          sx_list (fun k => sx_ids (lk_find_all_did_max t e k)) [0; 1; 2; 3] ]
+                                                              (* find_all(data_id=e, max_results=k), k = 0..3 *)
   | PData d a =>
       L [ sx_cb sx_ids (lk_find_all_data t d);                (* find_all(d) *)
           sx_cb sx_onat (lk_find_first_data t d);             (* find_first(d) *)
